@@ -118,6 +118,18 @@ def gen_cases(rng, tier):
         spec = gen_resume_case(rng, tier)
         spec["backend_params"]["worker_iter"] = True
         yield spec
+    # scripted schedulers with two metrics, the second of which is now and then not a number (statistics of a metric follow the type
+    # of its first value; the best trial is the best among the per-trial statistics)
+    k = 0
+    while k < (14 if tier == "quick" else 160):
+        spec = loop.gen_spec(rng, tier, text_metric=True)
+        if not spec.get("backend_params", {}).get("text_metric"):
+            continue
+        # (the table is not read back in these cases: what pandas makes of a column of numbers and words is not modelled)
+        spec["cb_store"], spec["csv"], spec["no_view"] = True, False, True
+        spec["inject"] = None
+        k += 1
+        yield spec
 
 
 def corpus():
@@ -129,7 +141,7 @@ def corpus():
 def run_impl(spec):
     t = loop.run_loop(spec)
     try:
-        view = loop.experiment_view(t)
+        view = None if spec.get("no_view") else loop.experiment_view(t)
         lines = loop.to_lines(t, view)
         lines += loop.mode_lookup_lines(random.Random(spec["seed"] + 7))
         mon = loop.monitor_c17(t, view)
